@@ -114,6 +114,34 @@ fn run_diff_odd(tok: usize, alg: Algorithm, ta: &str, tb: &str, fuel: Option<u64
     }
 }
 
+/// Two different 16-byte ASCII lines ("dddddddd" + 7 printable bytes + LF) with the same word-wise
+/// 64-bit Fx hash (h = (rotl(h,5) ^ word) * K per 8-byte little-endian word) when hashed the way
+/// `str` (bytes, then 0xff) respectively `[u8]` (length prefix, then bytes) feed a `Hasher`.
+fn fx_collision(as_str: bool) -> Option<(String, String)> {
+    const K: u64 = 0x51_7c_c1_b7_27_22_0a_95;
+    let step = |h: u64, w: u64| (h.rotate_left(5) ^ w).wrapping_mul(K);
+    let h0: u64 = if as_str { 0 } else { step(0, 16) };
+    let w1 = u64::from_le_bytes(*b"00000000");
+    let w2 = u64::from_le_bytes(*b"bbbbbbb\n");
+    let s1 = step(h0, w1);
+    for cand in 1..20_000_000u64 {
+        let d = format!("{:08}", cand);
+        let w1b = u64::from_le_bytes(d.as_bytes().try_into().ok()?);
+        let s1b = step(h0, w1b);
+        let w2b = w2 ^ s1.rotate_left(5) ^ s1b.rotate_left(5);
+        let bytes = w2b.to_le_bytes();
+        if bytes[7] == b'\n' && bytes[..7].iter().all(|c| (0x21..0x7f).contains(c)) {
+            debug_assert_eq!(step(s1, w2), step(s1b, w2b));
+            let x = "00000000bbbbbbb\n".to_string();
+            let y = format!("{}{}", d, String::from_utf8(bytes.to_vec()).ok()?);
+            if x != y {
+                return Some((x, y));
+            }
+        }
+    }
+    None
+}
+
 fn judge(what: &str, rows: &[Row], a: &[u8], b: &[u8], ctx: &dyn Fn() -> String, out: &mut Local) {
     for f in ACCESSOR_FAILS.with(|f| std::mem::take(&mut *f.borrow_mut())) {
         out.violation("text.value_accessors", format!("{} | {}", f, ctx()));
@@ -333,6 +361,98 @@ pub fn families() -> Vec<Box<dyn Family>> {
                 out.sample(|| format!("{} lines; old starts {}", n, show(&a[..a.len().min(60)])));
                 out.nontrivial(&(&a, &b));
                 long_case(&a, &b, out);
+            },
+        ),
+        family(
+            "fingerprint_collisions",
+            "line texts above the integer-mapping threshold in which ONE line of old is replaced in new by a different line that COLLIDES with it under a popular fast 64-bit string hash (word-wise Fx hash as used by rustc: two 16-byte ASCII lines constructed per text type so that the hasher state after them is identical; also with the pair swapped and with the colliding lines present on both sides): tokens that merely hash alike must never be treated as equal x 3 algorithms x {str,[u8]}",
+            true,
+            1,
+            |cfg| if cfg.tiny { 1 } else { 6 },
+            |idx, cfg, out| {
+                let n = if cfg.tiny { 12 } else { [120usize, 101, 400][(idx % 3) as usize] };
+                for as_str in [true, false] {
+                    let Some((x, y)) = fx_collision(as_str) else {
+                        out.count("no_collision_constructed");
+                        continue;
+                    };
+                    let mut la: Vec<String> = (0..n).map(|i| format!("record {:08}\n", i)).collect();
+                    let mut lb = la.clone();
+                    let at = n / 2;
+                    la[at] = x.clone();
+                    lb[at] = y.clone();
+                    if idx >= 3 {
+                        // both lines on both sides, in swapped order
+                        la.insert(at + 3, y.clone());
+                        lb.insert(at + 3, x.clone());
+                    }
+                    let (a, b) = (la.concat().into_bytes(), lb.concat().into_bytes());
+                    out.sample(|| format!("{} lines; line {} is {:?} in old and {:?} in new (same 64-bit Fx fingerprint as {})", n, at, x, y, if as_str { "str" } else { "[u8]" }));
+                    out.nontrivial(&(n, idx, as_str));
+                    out.count("fingerprint_collision_cases");
+                    for alg in ALGS {
+                        let ctx = || format!("tokenizer=lines alg={} type={} deadline=none old line {} = {:?}, new line {} = {:?} (equal 64-bit word-wise Fx hash), {} lines", alg_name(alg), if as_str { "str" } else { "[u8]" }, at, x, at, y, n);
+                        out.eval();
+                        let r = guard(|| run_diff(0, alg, as_str, &a, &b, None));
+                        match r {
+                            Err(p) => out.violation("panic", format!("text diff panicked: {} | {}", p, ctx())),
+                            Ok((all, _)) => judge("iter_all_changes", &all, &a, &b, &ctx, out),
+                        }
+                    }
+                }
+            },
+        ),
+        family(
+            "id_collision_hunt",
+            "adaptive: 300 000 DISTINCT line tokens are handed to the crate's public integer mapping (IdentifyDistinct::<u32>); if any two different tokens receive the same id, a line text above the mapping threshold is built in which exactly these two lines replace each other, and the reconstruction is checked x 3 algorithms (on a tree whose mapping is injective nothing is found and the case only records how many tokens were examined)",
+            true,
+            1,
+            |_cfg| 1,
+            |_idx, cfg, out| {
+                let n = if cfg.tiny { 200 } else { 300_000 };
+                let toks: Vec<String> = (0..n).map(|i| format!("item {}\n", i)).collect();
+                let refs: Vec<&str> = toks.iter().map(|s| s.as_str()).collect();
+                let empty: Vec<&str> = Vec::new();
+                out.eval();
+                out.sample(|| format!("{} distinct line tokens through IdentifyDistinct::<u32>", n));
+                out.nontrivial(&("hunt", n));
+                let r = guard(|| {
+                    let h = similar::algorithms::IdentifyDistinct::<u32>::new(&refs[..], 0..refs.len(), &empty[..], 0..0);
+                    let lk = h.old_lookup();
+                    let mut seen: std::collections::HashMap<u32, usize> = std::collections::HashMap::new();
+                    let mut pairs: Vec<(usize, usize)> = Vec::new();
+                    for i in 0..refs.len() {
+                        if let Some(j) = seen.insert(lk[i], i) {
+                            pairs.push((j, i));
+                            if pairs.len() >= 3 {
+                                break;
+                            }
+                        }
+                    }
+                    pairs
+                });
+                match r {
+                    Err(p) => out.violation("panic", format!("IdentifyDistinct::new over {} distinct tokens panicked: {}", n, p)),
+                    Ok(pairs) => {
+                        out.count_n("tokens_checked_for_id_collisions", n as u64);
+                        out.count_n("id_collisions_found", pairs.len() as u64);
+                        for (i, j) in pairs {
+                            let mut la: Vec<String> = (0..120).map(|k| format!("record {:08}\n", k)).collect();
+                            let mut lb = la.clone();
+                            la[60] = toks[i].clone();
+                            lb[60] = toks[j].clone();
+                            let (a, b) = (la.concat().into_bytes(), lb.concat().into_bytes());
+                            for alg in ALGS {
+                                let ctx = || format!("tokenizer=lines alg={} type=str deadline=none; 120 lines, line 60 is {:?} in old and {:?} in new - two DIFFERENT tokens to which IdentifyDistinct::<u32> assigns the same id", alg_name(alg), toks[i], toks[j]);
+                                out.eval();
+                                match guard(|| run_diff(0, alg, true, &a, &b, None)) {
+                                    Err(p) => out.violation("panic", format!("text diff panicked: {} | {}", p, ctx())),
+                                    Ok((all, _)) => judge("iter_all_changes", &all, &a, &b, &ctx, out),
+                                }
+                            }
+                        }
+                    }
+                }
             },
         ),
         family(
